@@ -53,7 +53,7 @@ func runC02(rc *RunCtx) {
 			for _, p := range []struct {
 				d uint32
 				n uint64
-			}{{da, 3}, {da, 7}, {db, 7}, {db, 9}, {da, ^uint64(0)}, {db, 0}, {db, ^uint64(0)}} {
+			}{{da, 3}, {da, 7}, {db, 7}, {db, 9}, {77, ^uint64(0)}, {78, ^uint64(0)}, {79, 0}, {80, 0}} {
 				in := &InMsg{Version: 0, Src: p.d, Dst: 4, Nonce: p.n, Sender: Structured32(1), Recipient: Structured32(2), Caller: make([]byte, 32), Body: []byte("boundary")}
 				if rep := exec(mkRx(in, Acct(UserIx), 0), "c02 boundary pattern"); rep.OK {
 					block = append(block, rxRecord{*in, Acct(UserIx)})
